@@ -437,7 +437,12 @@ pub fn run(prop: &str, seed: u64, from: u64, count: u64, trace_path: Option<&str
             let c = gen_case(seed, *idx);
             rep.violation(prop, format!("{} panicked on a {}-byte input ({}): {}", apiname, n, c.family, extra), case_json(&c, seed, *idx));
         } else {
-            if *peak > A0 + K * (*n + *prod) {
+            let c0 = gen_case(seed, *idx);
+            // a constructor that accepts lc / lp beyond the format's ranges needs 0x300 << (lc + lp) probabilities by
+            // construction: the fixed allowance A0 is sized for the format's largest table, so only panic / hang are
+            // judged for such parameters
+            let wide = matches!(c0.raw, Some((lc, lp, _, _, _)) if lc > 8 || lp > 4);
+            if !wide && *peak > A0 + K * (*n + *prod) {
                 let c = gen_case(seed, *idx);
                 rep.violation(prop, format!("{} allocated {} bytes at peak for {} input bytes and {} output bytes ({})", apiname, peak, n, prod, c.family), case_json(&c, seed, *idx));
             }
